@@ -77,8 +77,19 @@ func evoContainers(id string, e *schema.Record) []*schema.Case {
 	ub := &schema.Record{Kind: schema.Message, Inline: true, Name: id + "UNB", Fields: []schema.Field{{Name: "m", Index: 1, Type: et}, {Name: "after", Index: 2, Type: schema.P("int32")}}}
 	out = append(out, mk("UN", &schema.Record{Kind: schema.Union, Branches: []schema.Branch{{Disc: 1, Rec: ua}, {Disc: 2, Rec: ub}}}))
 	out = append(out, mk("DP", &schema.Record{Kind: schema.Struct, Fields: []schema.Field{{Name: "inner", Type: schema.A(schema.R(sf.Rec))}, after}}))
+	// structs (no length prefix of their own) that hold the evolved message, nested one and two levels deep
+	// in every container kind, always with something after them
+	ar := out[3].Rec // struct{ array[Ev] ms; after }
+	dp := out[len(out)-1].Rec
+	sfT := schema.R(sf.Rec)
+	out = append(out, mk("DS", &schema.Record{Kind: schema.Struct, Fields: []schema.Field{{Name: "inner", Type: sfT}, after}}))
+	out = append(out, mk("DM", &schema.Record{Kind: schema.Struct, Fields: []schema.Field{{Name: "mm", Type: schema.M("uint32", sfT)}, after}}))
+	out = append(out, mk("DF", &schema.Record{Kind: schema.Message, Fields: []schema.Field{{Name: "inner", Index: 1, Type: sfT}, {Name: "after", Index: 2, Type: schema.P("int32")}}}))
+	out = append(out, mk("DAA", &schema.Record{Kind: schema.Struct, Fields: []schema.Field{{Name: "xs", Type: schema.A(schema.A(sfT))}, after}}))
+	out = append(out, mk("DPA", &schema.Record{Kind: schema.Struct, Fields: []schema.Field{{Name: "inner", Type: schema.A(schema.R(ar))}, after}}))
+	out = append(out, mk("D3", &schema.Record{Kind: schema.Struct, Fields: []schema.Field{{Name: "inner", Type: schema.A(schema.R(dp))}, {Name: "one", Type: schema.R(dp)}, after}}))
 	// the union holding the evolved message, itself nested with something after it
-	un := out[len(out)-2].Rec
+	un := out[5].Rec
 	out = append(out, mk("NUS", &schema.Record{Kind: schema.Struct, Fields: []schema.Field{{Name: "u", Type: schema.R(un)}, after}}))
 	out = append(out, mk("NUA", &schema.Record{Kind: schema.Struct, Fields: []schema.Field{{Name: "us", Type: schema.A(schema.R(un))}, after}}))
 	out = append(out, mk("NUM", &schema.Record{Kind: schema.Message, Fields: []schema.Field{{Name: "u", Index: 1, Type: schema.R(un)}, {Name: "after", Index: 2, Type: schema.P("int32")}}}))
